@@ -464,6 +464,11 @@ PktClauses(o, e) ==
             THEN {"C08_b_IdSharedByOutstandingExchanges"} ELSE {})
     \cup (IF ids # {} /\ e.pid # 0 /\ o.ops[Min(ids)].pid = 0 /\ e.pid > o.ops[Min(ids)].pidBound
             THEN {"C08_a_IdNotLowestFree"} ELSE {})
+    \* ... and an identifier is reused only after its exchange has completed ON THE WIRE: the first transmission of a
+    \* message must not carry an identifier under which the broker still holds an unacknowledged PUBLISH of this connection
+    \* (the request that owned it may have been completed - wrongly - towards the application)
+    \cup (IF known /\ e.type = "PUBLISH" /\ e.qos > 0 /\ earlier = {} /\ e.pid \in cr.infl
+            THEN {"C08_b_IdReusedWhileUnacknowledged"} ELSE {})
     \* C02 / C03: a retransmission keeps its identifier and content
     \cup (IF ids # {} /\ e.pid # 0 /\ o.ops[Min(ids)].pid # 0 /\ o.ops[Min(ids)].pid # e.pid
             THEN {"C02_b_RetransmittedWithOtherId"} ELSE {})
